@@ -26,6 +26,18 @@ class StatefulRepair:
         return X
 
 
+class StatefulCross:
+    """user-supplied crossover given to DEX(variant=...): a callable object whose rate is annealed with every call"""
+
+    def __init__(self):
+        self.calls = 0
+
+    def __call__(self, n_matings, n_var, CR, at_least_once=True):
+        from pymoode.operators.dex import cross_binomial
+        self.calls += 1
+        return cross_binomial(n_matings, n_var, CR / (1.0 + 0.25 * self.calls), at_least_once)
+
+
 class UserOps:
     def cross(self, n_matings, n_var, CR, at_least_once=True):      # user-supplied operator: bound method
         from pymoode.operators.dex import cross_binomial
@@ -39,7 +51,7 @@ class C18(Check):
     THOROUGH_N = 80
     CASE_TIMEOUT = 400
     RULE = ("for random configurations of DE / NSDE / GDE3 / GDE3MNN / NSDE-R (stateful reference-direction survival), F given or left at its default, some with a user-supplied "
-            "repair (a plain function or a stateful callable object, passed through the constructor) and a bound-method crossover: the run is interrupted after EVERY generation k; the algorithm is checkpointed by copy.deepcopy, pickle and dill "
+            "repair (a plain function or a stateful callable object, passed through the constructor) and a bound-method crossover, or a stateful callable crossover object given to DEX(variant=...): the run is interrupted after EVERY generation k; the algorithm is checkpointed by copy.deepcopy, pickle and dill "
             "together with numpy.random.get_state(); each checkpoint is resumed (deepcopy/dill/pickle in this process after disturbing the generator, pickle also in a fresh "
             "interpreter) with the saved generator state and must reproduce every later generation of the uninterrupted run (fingerprints of X, F, G, optimum); "
             "minimize(save_history=True) must end in the same population as save_history=False; the uninterrupted run is also compared with the Coq model step by step; "
@@ -48,11 +60,14 @@ class C18(Check):
                    "the model-level statement is: a run of k + m generations is the run of m generations from the state after k (state is a first-class value)"]
 
     def gen(self, n):
-        for _ in range(n):
-            cfg = hist.gen_hist_case(self.rng, algs=ALGS, n_gen=self.rng.choice([4, 5]))
+        kinds = ["plain", "stateful", "cross-object"]
+        for i in range(n):
+            # every third case carries user-supplied operators, the three kinds in turn (so that even the 10 cases of the quick tier cover each of them)
+            user = i % 3 == 1
+            cfg = hist.gen_hist_case(self.rng, algs=tuple(a for a in ALGS if a != "NSDER") if user else ALGS, n_gen=self.rng.choice([4, 5]))
             if self.rng.random() < 0.4 and cfg["alg"] != "DE":
                 cfg["F"] = None
-            cfg["user_ops"] = (self.rng.choice(["plain", "stateful"]) if self.rng.random() < 0.4 and cfg["alg"] != "NSDER" else False)
+            cfg["user_ops"] = kinds[(i // 3) % 3] if user else False
             cfg["disturb"] = self.rng.randrange(10 ** 6)
             yield cfg
 
@@ -63,7 +78,12 @@ class C18(Check):
             # the crossover function is a bound method
             cfgx = dict(cfg); cfgx["repair"] = StatefulRepair() if cfg.get("user_ops") == "stateful" else my_repair
             alg = hist.make_algorithm(cfgx)
-            alg.mating.crossover.cross_function = UserOps().cross
+            if cfg.get("user_ops") == "cross-object":
+                from pymoode.operators.dex import DEX
+                alg = hist.make_algorithm(cfg)
+                alg.mating.crossover = DEX(variant=StatefulCross(), CR=float.fromhex(cfg["CR"]))     # the documented way to plug in a crossover function
+            else:
+                alg.mating.crossover.cross_function = UserOps().cross
         else:
             alg = hist.make_algorithm(cfg)
         alg.setup(prob, seed=cfg["seed"], termination=("n_gen", cfg["n_gen"] + 1), verbose=False)
